@@ -167,6 +167,7 @@ class Side:
         self.dl_seen = 0
         self.ot_seen = 0
         self.silent = set()
+        self.broken = set()     # websocket handler ended by an exception
         self.timed = set()      # shared: ended for silence on either side
         self.step_tickets = []
         self.step_calls = []
@@ -222,8 +223,16 @@ class Side:
                     pieces.append(it[1])
             if s.mode == 'websocket' and s.ws is not None:
                 for p in pieces:
-                    if p == '' or p in ('x', 'bA'):
-                        continue    # undecodable frames: fate not compared
+                    if p == '':
+                        continue    # (an empty text frame: see C04)
+                    if p in ('x', 'bA'):
+                        # an undecodable frame makes the WebSocket handler of
+                        # either server end with an exception; what a driver
+                        # does with the connection then is the driver's
+                        # business, so what still travels on this socket is
+                        # not compared - the events and the liveness of the
+                        # session are
+                        self.broken.add(s.n)
                     s.ws.send(p)
                     sim.quiesce()
             else:
@@ -346,7 +355,7 @@ class Side:
                     e.get('data', e.get('reason'))))))
         self.ev_seen = len(sim.events)
         dl = [(d['s'], d['id'], d['via']) for d in
-              R.deliveries[self.dl_seen:]]
+              R.deliveries[self.dl_seen:] if d['s'] not in self.broken]
         self.dl_seen = len(R.deliveries)
         ot = [(d['s'], d['type'], d['via']) for d in
               R.delivered_other[self.ot_seen:] if d['type'] not in (2,)]
